@@ -325,3 +325,71 @@ def run_dtensor_task(task):
     except Exception:
         import traceback
         return {"crash": traceback.format_exc()}
+
+
+def ddp_resume_rank_fn(task):
+    """C09 with the DDP (DTensor) state layout: every rank saves after step k, loads into a freshly constructed optimizer over
+    copies of its parameters, continues; compared bitwise with the uninterrupted run on the same rank."""
+    draw, W, GS, masks, k = task["draw"], task["W"], task["GS"], task["masks"], task["k"]
+
+    def fn(rank, world):
+        import io
+        from distributed_shampoo.shampoo_types import CommunicationDType, DDPShampooConfig
+        torch.set_num_threads(1)
+
+        def cfg():
+            return DDPShampooConfig(communication_dtype=CommunicationDType.FP32, num_trainers_per_group=GS, communicate_params=task["comm_params"])
+
+        def named(params):
+            return [(f"g{gi}.p{pi}", p) for gi, ps in enumerate(params) for pi, p in enumerate(ps)]
+
+        def snap(opt, params):
+            out = [[realopt.tensor_hash(p) for p in ps] for ps in params]
+            for gi in range(len(draw["groups"])):
+                out.append(sorted((str(kk), v) for kk, v in realopt.snapshot(opt, gi).items()))
+                out.append(realopt.group_step_value(opt, gi))
+            return out
+        a_opt, a_params = realopt.build(draw, distributed_config=cfg())
+        ref = []
+        for t, m in enumerate(masks, start=1):
+            set_grads(draw, a_params, m, t)
+            a_opt.step()
+            ref.append(snap(a_opt, a_params))
+        b_opt, b_params = realopt.build(draw, distributed_config=cfg())
+        for t, m in enumerate(masks[:k], start=1):
+            set_grads(draw, b_params, m, t)
+            b_opt.step()
+        sd = b_opt.distributed_state_dict(key_to_param=iter(named(b_params)))
+        if task.get("serialize", True):
+            buf = io.BytesIO()
+            torch.save(sd, buf)
+            buf.seek(0)
+            sd = torch.load(buf, weights_only=False)
+        c_params = [[torch.nn.Parameter(p.detach().clone()) for p in ps] for ps in b_params]
+        c_opt, _ = realopt.build(draw, params=c_params, distributed_config=cfg())
+        c_opt.load_distributed_state_dict(state_dict=sd, key_to_param=iter(named(c_params)))
+        bad = []
+        if k > 0 and snap(c_opt, c_params) != ref[k - 1]:
+            bad.append({"at": k, "what": "state after load differs from the saved state"})
+        for t, m in enumerate(masks[k:], start=k + 1):
+            set_grads(draw, c_params, m, t)
+            c_opt.step()
+            if snap(c_opt, c_params) != ref[t - 1]:
+                bad.append({"at": t, "what": "trajectory after resume differs"})
+                break
+        world.partial.setdefault(rank, {})["resume_bad"] = bad
+        return True
+    return fn
+
+
+def run_ddp_resume_task(task):
+    import logging
+    logging.disable(logging.WARNING)
+    torch.set_num_threads(1)
+    try:
+        world = simdist.run_world(task["W"], ddp_resume_rank_fn(task), seed=task.get("seed", 0))
+        return {"verdict": world.verdict[0] if world.verdict else None, "errors": {str(k): v[:600] for k, v in world.errors.items()},
+                "bad": {str(r): world.partial[r].get("resume_bad") for r in world.partial}}
+    except Exception:
+        import traceback
+        return {"crash": traceback.format_exc()}
